@@ -580,8 +580,9 @@ pub fn check_answer(case: &Case, ro: &ROffer, ans_text: &str, phase: Phase, fail
             if !ids.insert(id) {
                 fails.push(Fail::new("answer-extmap-duplicate-id", here(format!("extension id {} used twice", id))));
             }
-            if !os.extmaps.iter().any(|(oi, ou, _)| *oi == id && ou == uri) {
-                let substring = os.extmaps.iter().any(|(oi, ou, _)| *oi == id && ou != uri && ou.contains(uri));
+            // judged against the effective mappings (media level, plus session level where not redefined)
+            if !os.eff_extmaps.iter().any(|(oi, ou, _)| *oi == id && ou == uri) {
+                let substring = os.eff_extmaps.iter().any(|(oi, ou, _)| *oi == id && ou != uri && ou.contains(uri));
                 // F4 first: in a mid-less offer every later section echoes the first section's
                 // extmaps, whose URI may by chance be a prefix of the one offered here.
                 let sig = if o.mids == MidScheme::Absent && i > 0 {
@@ -593,7 +594,10 @@ pub fn check_answer(case: &Case, ro: &ROffer, ans_text: &str, phase: Phase, fail
                 };
                 fails.push(Fail::new(
                     sig,
-                    here(format!("answer maps id {} to {} ; offered in this section: {:?}", id, uri, os.extmaps)),
+                    here(format!(
+                        "answer maps id {} to {} ; offered for this section (media level {:?}, session level {:?}): effective {:?}",
+                        id, uri, os.extmaps, ro.sess_ext, os.eff_extmaps
+                    )),
                 ));
             }
         }
@@ -632,16 +636,26 @@ pub fn check_answer(case: &Case, ro: &ROffer, ans_text: &str, phase: Phase, fail
                     .count();
                 let first_of_kind = o.sections.iter().filter(|p| p.kind == os.kind).count();
                 let spare = local_of_kind > first_of_kind;
-                let sig = if o.dir_session {
-                    "answer-direction-incompatible(session-level-direction)"
-                } else if o.mids == MidScheme::Absent && spare && phase == Phase::Reneg {
+                let sig = if o.mids == MidScheme::Absent && spare && phase == Phase::Reneg {
                     "answer-direction-incompatible(midless-offer, spare-local-transceiver, renegotiation)"
+                } else if !os.dir_explicit && ro.dir_session.is_some() {
+                    // the offered direction of this section is the session-level one
+                    "answer-direction-incompatible(session-level-direction)"
+                } else if os.dir_explicit && ro.dir_session.is_some() && ro.dir_session != Some(os.dir) {
+                    // the section overrides a different session-level direction
+                    "answer-direction-incompatible(media-level-overrides-session-level)"
                 } else {
                     "answer-direction-incompatible"
                 };
                 fails.push(Fail::new(
                     sig,
-                    here(format!("offered {}, answered {}", os.dir.as_str(), adir.as_str())),
+                    here(format!(
+                        "offered {} (session level {:?}, media level {}), answered {}",
+                        os.dir.as_str(),
+                        ro.dir_session.map(|d| d.as_str()),
+                        if os.dir_explicit { os.dir.as_str() } else { "-" },
+                        adir.as_str()
+                    )),
                 ));
             }
         }
@@ -664,26 +678,121 @@ pub fn check_answer(case: &Case, ro: &ROffer, ans_text: &str, phase: Phase, fail
             }
         }
     }
-    // DTLS role
+    // DTLS role: every answered section against the *effective* offered setup of that section
+    // (media-level a=setup if the section has one, else the session-level one; RFC 4145 4)
     if l.mode == Mode::WebRtc && o.profile == Profile::WebRtc {
-        let mut all: Vec<&str> = vals(&ans.sess, "setup");
-        for m in &ans.media {
-            all.extend(vals(&m.attrs, "setup"));
-        }
-        if all.is_empty() {
-            fails.push(Fail::new("answer-setup-missing", ctx("DTLS offered, answer carries no a=setup")));
-        }
-        for v in all {
-            if !setup_ok(ro.setup, v) {
-                let sig = if o.setup_session {
-                    "answer-setup-role-conflict(session-level-setup)"
+        let ans_sess_setup = vals(&ans.sess, "setup").last().copied();
+        let mixed = ro.secs.iter().map(|s| s.setup.as_str()).collect::<BTreeSet<_>>().len() > 1;
+        let mut missing = false;
+        for (i, (os, am)) in ro.secs.iter().zip(ans.media.iter()).enumerate() {
+            let v = vals(&am.attrs, "setup").last().copied().or(ans_sess_setup);
+            let Some(v) = v else {
+                missing = true;
+                continue;
+            };
+            if !setup_ok(os.setup, v) {
+                let any_actpass = ro.secs.iter().any(|s| s.setup == Setup::Actpass);
+                let sig = if mixed && os.setup == Setup::Passive && v == "passive" && any_actpass {
+                    // confirmed shape: the role is taken from the first a=setup line found (an actpass
+                    // one) although another section's effective value fixes the role
+                    "answer-setup-role-conflict(some sections actpass, others passive)"
+                } else if mixed {
+                    "answer-setup-role-conflict(sections-differ-in-effective-setup)"
                 } else {
                     "answer-setup-role-conflict"
                 };
-                fails.push(Fail::new(sig, ctx(&format!("offer a=setup:{}, answer a=setup:{}", ro.setup.as_str(), v))));
+                fails.push(Fail::new(
+                    sig,
+                    ctx(&format!(
+                        "section {}: offered a=setup session level {:?}, media level {:?} => effective {}; answer a=setup:{} (effective per section: {:?})",
+                        i,
+                        ro.setup_session.map(|s| s.as_str()),
+                        os.setup_media.map(|s| s.as_str()),
+                        os.setup.as_str(),
+                        v,
+                        ro.secs.iter().map(|s| s.setup.as_str()).collect::<Vec<_>>()
+                    )),
+                ));
                 break;
             }
         }
+        if missing {
+            fails.push(Fail::new("answer-setup-missing", ctx("DTLS offered, an answered section carries no a=setup (neither media nor session level)")));
+        }
+    }
+    // extmap-allow-mixed may only be answered when it was offered
+    {
+        let offered = emit_has_allow_mixed(o);
+        let answered = ans.sess.iter().any(|(k, _)| k == "extmap-allow-mixed")
+            || ans.media.iter().any(|m| m.attrs.iter().any(|(k, _)| k == "extmap-allow-mixed"));
+        if answered && !offered {
+            fails.push(Fail::new("answer-extmap-allow-mixed-not-offered", ctx("a=extmap-allow-mixed answered but not offered at any level")));
+        }
+    }
+}
+
+/// What the two-level placements actually produced in this offer (measured on the resolved offer).
+fn label_levels(r: &ROffer, o: &Offer, rec: &CaseRec) {
+    if o.profile == Profile::WebRtc {
+        let media: Vec<Setup> = r.secs.iter().filter_map(|s| s.setup_media).collect();
+        match (r.setup_session, media.is_empty()) {
+            (Some(s), false) => {
+                if media.iter().all(|m| *m == s) {
+                    rec.label("levels:setup both, equal");
+                } else {
+                    rec.label(format!(
+                        "levels:setup both, different (session {} / media {})",
+                        s.as_str(),
+                        media.iter().find(|m| **m != s).map(|m| m.as_str()).unwrap_or("-")
+                    ));
+                }
+                if media.len() < r.secs.len() {
+                    rec.label("levels:setup session + some sections only");
+                }
+            }
+            (Some(_), true) => rec.label("levels:setup session only"),
+            (None, _) => rec.label("levels:setup media only"),
+        }
+        if r.secs.iter().map(|s| s.setup.as_str()).collect::<BTreeSet<_>>().len() > 1 {
+            rec.label("levels:setup effective value differs between sections");
+        }
+    }
+    if let Some(d) = r.dir_session {
+        let judged: Vec<&RSec> = r.secs.iter().filter(|s| s.kind != Kind::Application).collect();
+        let explicit: Vec<&&RSec> = judged.iter().filter(|s| s.dir_explicit).collect();
+        if explicit.is_empty() {
+            rec.label("levels:direction session only");
+        } else if explicit.iter().all(|s| s.dir == d) {
+            rec.label("levels:direction both, equal");
+        } else {
+            rec.label("levels:direction both, different (media wins)");
+        }
+        if !explicit.is_empty() && explicit.len() < judged.len() {
+            rec.label("levels:direction session + some sections only");
+        }
+    }
+    if !r.sess_ext.is_empty() {
+        let redefined = r.secs.iter().any(|s| {
+            s.kind.is_rtp()
+                && r.sess_ext.iter().any(|(id, uri, _)| s.extmaps.iter().any(|(i2, u2, _)| i2 == id && u2 != uri))
+        });
+        let restated = r.secs.iter().any(|s| {
+            r.sess_ext.iter().any(|(id, uri, _)| s.extmaps.iter().any(|(i2, u2, _)| i2 == id && u2 == uri))
+        });
+        rec.label("levels:extmap at session level");
+        if redefined {
+            rec.label("levels:extmap session id redefined at media level");
+        }
+        if restated {
+            rec.label("levels:extmap session mapping restated at media level");
+        }
+    }
+}
+
+fn emit_has_allow_mixed(o: &Offer) -> bool {
+    match o.place.allow_mixed {
+        Lv::Legacy => o.extras & 0x04 != 0,
+        _ => true,
     }
 }
 
@@ -705,6 +814,7 @@ async fn negotiate(case: &Case, rec: &CaseRec) -> Vec<Fail> {
     let o = &case.offer;
     let r1 = resolve(l, o);
     let t1 = emit(o, &r1);
+    label_levels(&r1, o, rec);
     let d1 = match SessionDescription::parse(SdpType::Offer, &t1) {
         Ok(d) => d,
         Err(e) => {
@@ -837,8 +947,19 @@ fn classify(case: &Case, out: &CaseRec) {
     if case.steered {
         rec.label("steered:offer-lists-local-codecs");
     }
-    if o.setup_session {
+    if o.setup_session && o.place.setup == Lv::Legacy {
         rec.label("setup-at-session-level");
+    }
+    if o.profile == Profile::WebRtc {
+        rec.label(format!("place:setup={}", o.place.setup.name()));
+        rec.label(format!("place:ice={}", o.place.ice.name()));
+        rec.label(format!("place:fingerprint={}", o.place.fp.name()));
+        rec.label(format!("place:ice-options={}", o.place.ice_options.name()));
+    }
+    rec.label(format!("place:direction={}", o.place.dir.name()));
+    rec.label(format!("place:extmap-allow-mixed={}", o.place.allow_mixed.name()));
+    if !o.place.sess_ext.is_empty() {
+        rec.label("place:session-level-extmap");
     }
     if o.dir_session {
         rec.label("direction-at-session-level");
@@ -1149,13 +1270,15 @@ fn dev_n(var: &str, default: usize) -> usize {
 
 pub fn run(ctx: &mut Ctx) {
     ctx.level = "exploration";
-    ctx.rule = "answer: offers are built from a grammar as SDP text (1-6 m= sections of audio/video/application/image in any order; numeric / alphabetic / absent mids; per-section codec lists over opus, PCMU, PCMA, G722, G729, telephone-event 8k/48k, CN, ISAC, VP8, VP9, H264 x2, AV1, H265, ulpfec, rtx(apt=) with customary or re-mapped dynamic PTs and static PTs with/without rtpmap; extmap ids 1-14 over 11 URIs; directions at media or session level; BUNDLE all / proper subset / absent; rtcp-mux, rtcp-rsize; setup actpass/active/passive at media or session level; fingerprint and ICE credentials at media or session level; loopback candidates; ssrc, ssrc-group FID, msid, rid+simulcast; WebRTC / RTP-AVP / RTP-SAVP dialect) x local configuration (transport mode x sdp_compatibility x rtcp_mux_policy x 6 capability sets x pre-added transceivers / tracks / data channel / an abandoned local offer) x optional second offer on the same connection (changed directions, re-ordered / removed / added codecs without re-binding PTs, optional new trailing section). Non-trivial = the offer was accepted and answered and has >= 2 sections, or a codec list different from the local configuration, or a non-default direction, or a header extension; distinct by case digest. roundtrip: the same grammar plus spliced valid session/media lines, parsed and printed without a PeerConnection. local-offer: offers created by the stack from generated local configurations.".into();
+    ctx.rule = "answer: offers are built from a grammar as SDP text (1-6 m= sections of audio/video/application/image in any order; numeric / alphabetic / absent mids; per-section codec lists over opus, PCMU, PCMA, G722, G729, telephone-event 8k/48k, CN, ISAC, VP8, VP9, H264 x2, AV1, H265, ulpfec, rtx(apt=) with customary or re-mapped dynamic PTs and static PTs with/without rtpmap; extmap ids 1-14 over 11 URIs; attributes legal at both levels (setup, direction, ice-ufrag/pwd, fingerprint, ice-options, extmap, extmap-allow-mixed) placed session-only / media-only / both equal / both different with the media level winning / session + some sections restating / session + some sections overriding, judged against the effective per-section value; BUNDLE all / proper subset / absent; rtcp-mux, rtcp-rsize; setup actpass/active/passive; loopback candidates; ssrc, ssrc-group FID, msid, rid+simulcast; WebRTC / RTP-AVP / RTP-SAVP dialect) x local configuration (transport mode x sdp_compatibility x rtcp_mux_policy x 6 capability sets x pre-added transceivers / tracks / data channel / an abandoned local offer) x optional second offer on the same connection (changed directions, re-ordered / removed / added codecs without re-binding PTs, optional new trailing section). Non-trivial = the offer was accepted and answered and has >= 2 sections, or a codec list different from the local configuration, or a non-default direction, or a header extension; distinct by case digest. roundtrip: the same grammar plus spliced valid session/media lines, parsed and printed without a PeerConnection. local-offer: offers created by the stack from generated local configurations.".into();
     ctx.assumptions = vec![
         "offers rejected by SessionDescription::parse, set_remote_description or create_answer are outside the statement (counted under rejected:*)".into(),
         "an answer may add a=mid where the offer carried none (JSEP lets the answerer generate one)".into(),
         "round trip compares descriptions modulo the printer's stable partition of media attributes (ice-ufrag, ice-pwd, fingerprint, setup, candidate before a=mid; order inside each class preserved)".into(),
         "a=fmtp parameters other than apt=, rtcp-fb, ports, transport protocol and ICE/crypto attributes of the answer are not part of the statement and are not judged".into(),
-        "a second offer keeps the DTLS setup value of the first one or falls back to actpass".into(),
+        "a second offer keeps the DTLS setup value of the first one or falls back to actpass (in every section)".into(),
+        "sections of one offer differ in their effective a=setup only when nothing is bundled (RFC 8859: IDENTICAL inside a BUNDLE group) and only as actpass beside one determinate role, never active beside passive; holdconn is not offered (RFC 5763 does not use it)".into(),
+        "the offered value of a section is the media-level attribute if the section has one, else the session-level one (RFC 8866 5.13, RFC 4145 4, RFC 3264 5.1, RFC 8285 6)".into(),
         "all sockets are bound to 127.0.0.1 (bind_ip) and offered addresses are loopback".into(),
     ];
 
